@@ -171,13 +171,25 @@ def snapshots_equal(a, b, fields=("members", "mean", "emp", "train", "comp", "lo
     return True
 
 
+class RunawayLoop(BaseException):
+    """raised by the tracing wrapper when the main loop starts far more rounds than its iteration limit allows
+    (a BaseException, so that no `except Exception` inside the implementation can swallow it)."""
+
+
+# per-call watchdog of `execute`: set by harness/main.py.  A complete small run takes seconds; one that does not
+# return within `seconds` is reported by `on_hang(cfg)` (which ends the process).
+HANG = {"seconds": 300, "on_hang": None}
+
+
 class Trace:
     """Wraps the four phase functions the main loop reaches through module attributes, the
     labelling kernel and the ADMM entry point.  Records, per phase call: name, input state
     object, output state object, snapshots before/after of the input."""
 
-    def __init__(self, record_states=True, capture_kernel=True, wrap_admm=True):
+    def __init__(self, record_states=True, capture_kernel=True, wrap_admm=True, max_rounds=None):
         self.wrap_admm = wrap_admm
+        self.max_rounds = max_rounds
+        self.stats_calls = 0
         self.events = []            # dicts
         self.kernel_calls = []      # (cost_table copy, beta as passed, labels, cost)
         self.admm_calls = []        # dicts of the arguments reaching admm_optimize_theta
@@ -193,6 +205,10 @@ class Trace:
             orig = getattr(mod, name)
 
             def wrapped(model, *a, **k):
+                if label == "stats":
+                    tr.stats_calls += 1
+                    if tr.max_rounds is not None and tr.stats_calls > tr.max_rounds:
+                        raise RunawayLoop(f"the main loop started round {tr.stats_calls} (limit {tr.max_rounds - 3})")
                 before = snapshot_state(model) if tr.record_states else None
                 try:
                     out = orig(model, *a, **k)
@@ -326,6 +342,14 @@ def config_data(cfg):
     shift = cfg.get("shift")
     if shift is not None:
         series = [s + np.asarray(shift, dtype=float) for s in series]
+    dt = cfg.get("dtype")
+    if dt is not None:
+        # caller-side dtypes other than float64: integer counts / ADC readings (values scaled to a useful integer
+        # range first) or single precision
+        if np.issubdtype(np.dtype(dt), np.integer):
+            series = [np.round(s * 16.0).astype(dt) for s in series]
+        else:
+            series = [s.astype(dt) for s in series]
     return series
 
 
@@ -355,6 +379,8 @@ def execute(cfg, trace=True, **trace_kw):
     import warnings
     series = config_data(cfg)
     seed_all(cfg["seed"])
+    if trace and "max_rounds" not in trace_kw and cfg.get("limit"):
+        trace_kw = dict(trace_kw, max_rounds=int(cfg["limit"]) + 3)
     tr = Trace(**trace_kw) if trace else None
     res, err = None, None
     stack = contextlib.ExitStack()
@@ -369,6 +395,12 @@ def execute(cfg, trace=True, **trace_kw):
             out.point_labels = list(forced)
             return out
         stack.enter_context(patched(_cla, "predict_cluster_labels", _forced))
+    timer = None
+    if HANG.get("on_hang") is not None:
+        import threading
+        timer = threading.Timer(HANG["seconds"], HANG["on_hang"], args=(dict(cfg),))
+        timer.daemon = True
+        timer.start()
     with stack, warnings.catch_warnings():
         warnings.simplefilter("ignore")
         try:
@@ -381,6 +413,11 @@ def execute(cfg, trace=True, **trace_kw):
                     run_single(series[0], **config_kwargs(cfg))
         except Exception as e:       # a run that does not complete is outside the conditional clauses
             err = e
+        except RunawayLoop as e:
+            err = e
+        finally:
+            if timer is not None:
+                timer.cancel()
     return res, tr, err, series
 
 
